@@ -91,6 +91,20 @@ stubset('force_long', [('simple_sds::bits::bit_len', 'stubs::bit_len_force_long'
 stubset('utf8', [('std::string::String::from_utf8', 'stubs::string_from_utf8_ascii'), ('std::str::from_utf8', 'stubs::str_from_utf8_ascii')])
 
 
+stubset('bvspec', [
+    ('<simple_sds::bit_vector::BitVector as simple_sds::ops::Rank>::rank', 'stubs_bv::bv_rank'),
+    ('<simple_sds::bit_vector::BitVector as simple_sds::ops::Select>::select', 'stubs_bv::bv_select'),
+    ('<simple_sds::bit_vector::BitVector as simple_sds::ops::SelectZero>::select_zero', 'stubs_bv::bv_select_zero'),
+    ('<simple_sds::bit_vector::BitVector as simple_sds::ops::Rank>::enable_rank', 'stubs_bv::bv_enable_noop'),
+    ('<simple_sds::bit_vector::BitVector as simple_sds::ops::Select>::enable_select', 'stubs_bv::bv_enable_noop'),
+    ('<simple_sds::bit_vector::BitVector as simple_sds::ops::SelectZero>::enable_select_zero', 'stubs_bv::bv_enable_noop'),
+    ('<simple_sds::bit_vector::BitVector as simple_sds::ops::PredSucc>::enable_pred_succ', 'stubs_bv::bv_enable_noop'),
+])
+
+
+stubset('nofmt', [('std::fmt::format', 'stubs::fmt_format_empty')])
+
+
 def expand_stubs(names):
     out = []
     for n in names:
@@ -110,6 +124,6 @@ def all_instances():
     if not _loaded:
         _loaded = True
         import glob, os
-        for f in sorted(glob.glob(os.path.join(os.path.dirname(os.path.abspath(__file__)), 'props', 'c*.py'))):
+        for f in sorted(glob.glob(os.path.join(os.path.dirname(os.path.abspath(__file__)), 'props', '[cz]*.py'))):
             importlib.import_module('kvlib.props.' + os.path.basename(f)[:-3])
     return _INSTANCES
